@@ -12,24 +12,30 @@ CHECKS = {
          "environment and every JSON document, a document valid against the flat schema (Model/JsonSchema.v js_valid, an executable "
          "reading of the Draft 2020-12 keywords beff emits) is accepted by validate(), in strict mode too, i.e. it carries no undeclared "
          "key (Proofs/C02Sound.v, by induction on the printer; removeNullUnionBranch and the required list are covered); "
-         "C02_flat_unsupported_throws — for every tree/environment/state, a successful flat schema() implies no Date, bigint, Map, Set "
+         "C02_flat_schema_complete_on_fragment — the converse on the sub-fragment whose properties are types that never accept undefined/null "
+         "or optional such types: every JSON document without null and with distinct keys that the validator accepts with undeclared keys "
+         "disallowed is valid against the flat schema (Proofs/C02Complete.v; Proofs/C02Mono.v: js_valid is monotone in its fuel on the "
+         "schemas beff prints in flat mode); C02_flat_unsupported_throws — for every tree/environment/state, a successful flat schema() implies no Date, bigint, Map, Set "
          "or typed array at any position the printer visits; C02_refuted_tuple_without_minItems and C02_refuted_never_is_malformed "
          "exhibit the unchanged code's violations. Ties: every emitted schema (flat and contextual) against Model/Schema.v; js_valid "
-         "against python jsonschema on every (emitted schema, document) pair. The converse direction (null-free exact members are "
-         "valid), contextual mode, well-formedness, $ref resolution and the constructs outside the fragment are decided per generated "
+         "against python jsonschema on every (emitted schema, document) pair. Outside the two fragments, contextual mode, well-formedness, $ref resolution and the constructs outside the fragment are decided per generated "
          "(type, document) by python jsonschema on the implementation's schemas (search).",
-         "Completeness, contextual mode, intersections, tuples, dispatch nodes, patterns and formats are not proved (refuted where "
+         "Contextual mode, intersections, tuples, dispatch nodes, patterns and formats are not proved (refuted where "
          "false, searched elsewhere); python jsonschema is the oracle for Draft 2020-12; flat schemas of recursive types are outside "
          "the claim, as the property says."),
  "C03": ("Theorems (all trees, environments, values, options): safeParse succeeds iff validate = true (and parse returns iff "
          "safeParse succeeds; failure implies validate = false); validate never throws outside discriminator dispatch "
          "(C03_validate_never_throws_except_known); refutations with witnesses for the throw and for re-validation of the "
-         "returned data (Map through a union -> {}). The remaining clauses (projection, idempotence, key order only, no "
-         "mutation) are evaluated by the Gallina spec predicates on the implementation's own outputs (search, labelled "
+         "returned data (Map through a union -> {}; a typed array satisfying a declared `length`). "
+         "C03_data_is_accepted_again_except_known (Proofs/C03Data.v): on trees without unions, intersections, discriminated dispatch "
+         "and index signatures (distinct property names, none an Object.prototype member), for every environment of such trees, every "
+         "input without typed arrays, both key orders: the data safeParse returns is accepted by the same validator under every option, "
+         "in particular with undeclared keys disallowed (it consists of declared parts only). The remaining clauses (projection, "
+         "idempotence, key order only, no mutation) and the clauses outside that fragment are evaluated by the Gallina spec predicates on the implementation's own outputs (search, labelled "
          "testing). Model tied to codegen-v2.ts by a differential stream over validate/safeParse/parse in 4 option "
          "combinations.",
-         "Values are finite trees without getters/proxies or integer-like keys; projection/idempotence/key-order clauses are "
-         "checked on generated inputs, not proved."),
+         "Values are finite trees without getters/proxies or integer-like keys; projection/idempotence/key-order clauses and the "
+         "re-validation clause for unions / intersections / index signatures are checked on generated inputs, not proved."),
  "C04": ("Theorems on the one recursion of the pipeline that a model can carry (extract_union: flattening unions through nested "
          "unions and named references, performed by printer and frontend without a visited set): it terminates with fuel h(t)+1 "
          "whenever a height function exists (no named type reaches itself through unions/references only), for every environment; "
